@@ -88,6 +88,18 @@ def run(ctx):
             h.viols.append(('related-system|%s|%s' % (t, u['name']),
                             {'unit': u['name'], 'consistent_unit_of_systems': [systems[s] for s in sy],
                              'RelatedUnitSystem': systems.get(got, got), 'expected': systems.get(want, want)}))
+    # call histories: every sequence of three lookups over the enumerators of a unit type returns what single calls return
+    import os
+    src = vf.read(os.path.join(vf.VERIF, 'harness', 'c07_hist.cpp')).decode()
+    ts = [t for t in units.enum_types() if t['kind'] == 0]
+    jobs = [{'name': 'c07hist_' + t['name'], 'src': src, 'opt': '-O1',
+             'flags': ['-DVF_HDR=%s' % t['hdr'], '-DVF_E=%s' % t['cpp'], '-DVF_ENAME="%s"' % t['name']]} for t in ts]
+    bins = ctx.build_all(jobs)
+    for t, (b, err) in zip(ts, bins):
+        if not b:
+            raise vf.Undecided('c07_hist for %s does not compile: %s' % (t['name'], err[:1500]))
+    ctx.pmap(lambda b: ctx.run(b[0]), bins)
+    ev += h.stat('histories')
     h.stats['consistent_units'] = len(tables) * len(systems)
     h.stats['reverse_lookups'] = len(bound)
     h.maxf['worst_relative_deviation_measured_vs_product'] = float(worst)
